@@ -316,6 +316,41 @@ def bgParse (ts : List String) : Option GObs :=
     | _, _ => none
   | _ => none
 
+/-! ### bat -/
+
+/-- History tokens: `c` Close, `t`/`s` attach target/source, `ct`/`cs` Close ‖ attach, `cc` two
+Closes at once.  Returns the thread list and the schedule of everything before the last `c`. -/
+def batPlan (ms : Nat) : List String → List APc → Schedule → Option (List APc × Schedule)
+  | [], pcs, s => some (pcs, s)
+  | op :: rest, pcs, s =>
+    let k := pcs.length
+    if op == "c" then batPlan ms rest (pcs ++ [.a1]) (s ++ [k, k, k])
+    else if op == "t" then batPlan ms rest (pcs ++ [.attT]) (s ++ [k])
+    else if op == "s" then batPlan ms rest (pcs ++ [.attS]) (s ++ [k])
+    else if op == "cc" then batPlan ms rest (pcs ++ [.a1, .a1]) (s ++ (lcgSched (ms + k) 2 8).map (· + k) ++ [k, k, k, k + 1, k + 1, k + 1])
+    else if op == "ct" || op == "cs" then
+      batPlan ms rest (pcs ++ [.a1, if op == "ct" then .attT else .attS])
+        (s ++ (lcgSched (ms + k) 2 4).map (· + k) ++ [k, k, k, k + 1])
+    else none
+
+def batInput (ts : List String) : Option (List APc × Schedule) :=
+  match natAfter "h" ts, natAfter "ms" ts with
+  | some k, some ms =>
+    let ops := ((after "h" ts).drop 1).take k
+    if ops.length = k ∧ k ≥ 1 ∧ ops.getLast? == some "c" then batPlan ms ops.dropLast [] [] else none
+  | _, _ => none
+
+def batShow (o : AObs) : String :=
+  s!"satt {o.satt} stc {o.stc} tatt {o.tatt} ttc {o.ttc} lost {o.lostS} {o.lostT} open {o.open_}"
+
+def batParse (ts : List String) : Option AObs :=
+  match ts with
+  | ["satt", a, "stc", b, "tatt", c, "ttc", d, "lost", e, f, "open", g] =>
+    match natList [a, b, c, d, e, f, g] with
+    | some [a, b, c, d, e, f, g] => some ⟨a, b, c, d, e, f, g⟩
+    | _ => none
+  | _ => none
+
 /-! ### entry points -/
 
 def runModel (ts : List String) : String :=
@@ -358,6 +393,10 @@ def runModel (ts : List String) : String :=
     match bgInput ts with
     | some (cf, n) => bgShow (gObs (gFinal .keep 1 n (bgSched cf n)))
     | none => "bad-case"
+  | "bat" :: _ =>
+    match batInput ts with
+    | some (pcs, s) => batShow (aObs (closeSeq false (run (aProg false) s (aInit pcs)).sh))
+    | none => "bad-case"
   | "mgr" :: _ =>
     -- two clean handlers: ResourceBase.onClose and the component's own onClose
     match mgrInput ts with
@@ -399,6 +438,10 @@ def runHolds (caseToks obsToks : List String) : String :=
   | "bg" :: _ =>
     match bgInput caseToks, bgParse obsToks with
     | some _, some o => holdsG o
+    | _, _ => false
+  | "bat" :: _ =>
+    match batInput caseToks, batParse obsToks with
+    | some _, some o => holdsA o
     | _, _ => false
   | "mgr" :: _ =>
     match mgrInput caseToks, mgrParse obsToks with
